@@ -50,6 +50,7 @@ from harness.orch import cq_plan, flight_server, stop_flight_server, flight_keys
 REQ = ["MV.Model.Orch", "MV.Model.Worker"]
 INFRA_ERRORS = ("BrokenPipeError", "EOFError", "ConnectionResetError", "ConnectionRefusedError")
 LAST_INFO: Dict[str, Any] = {}
+LAST_RUNS: List[Tuple[Any, ...]] = []      # one small key per observed run of the last check (for the caller's coverage counters)
 _now = time.monotonic_ns
 
 
@@ -1243,7 +1244,46 @@ def check(rep_prefix: str, tier: str, seed: int, n_specs: Optional[int] = None, 
     info["disagreements"] = len(dis)
     LAST_INFO.clear()
     LAST_INFO.update(info)
+    LAST_RUNS[:] = [(r["ob"]["mode"], r["ob"]["variant"], json.dumps(r["ob"]["fault"] or None, sort_keys=True), r["h"]["exit"],
+                     len(r["ob"]["plan"]["steps"]), len(r["h"]["hist"])) for r in runs]
     return dis
+
+
+def report(rep: Any, prop: str, tier: str, seed: int, n_specs: Optional[int] = None) -> bool:
+    """What a registered check (harness/c08.py, harness/c09.py) does with this tie: build Props/Worker.v, observe + replay + judge with
+    the property's focus, turn EVERY disagreement (stage model / judge / observe) into rep.finding with the case as replay
+    object, add counters.  Returns True when a failing input was reported."""
+    pw = vlib.build_props("Worker")
+    rep.proof(pw)
+    found = False
+    dis = check(prop, tier, seed, n_specs=n_specs, focus=prop if prop in FOCUS else None)
+    for d in dis:
+        c = d["case"]
+        key = json.dumps([c.get("spec"), c.get("mode"), c.get("variant"), c.get("fault")], sort_keys=True)
+        rep.finding(f"worker-proto:{d['stage']}:{key}"[:400], "worker protocol (Model/Worker.v), " + d["stage"] + ": " + d["what"], c)
+        found = True
+    rep.add("worker_protocol", dict(LAST_INFO))
+    rep.count(len(LAST_RUNS))
+    for k in LAST_RUNS:
+        rep.nontrivial(("worker_proto",) + k)
+    tb = ("hand-written Model/Worker.v (labelled transition system of the orchestrator <-> worker protocol); tied by real THREADING / "
+          "MULTIPROCESSING runs observed through class-level wrappers (harness/worker_proto.py) whose canonical histories chk_proto "
+          "replays in vm_compute; wof / wdrop / children_if_root are observed, OS facts (terminate kills, join returns) assumed")
+    if tb not in rep.coverage["trusted_base"]:
+        rep.coverage["trusted_base"].append(tb)
+    if not pw.ok and not found:
+        rep.finding("proof-broken-worker", "Props/Worker.v no longer checks",
+                    {"failed_files": pw.failed_files, "forbidden": pw.forbidden, "log_tail": pw.log[-3000:]}, found_input=False)
+    return found
+
+
+def replay_main(r: Dict[str, Any], prop: str) -> int:
+    """`./check <prop> --replay <file>` for a stored worker_proto case: re-observe on the current tree, replay, judge."""
+    pw = vlib.build_props("Worker")
+    res = replay_case(r, prop)
+    stop_flight_server()
+    print(json.dumps({"props_worker_ok": pw.ok, **res}, indent=1, default=str))
+    return 0 if (pw.ok and res["model_accepts"] and not res["judge"]) else 1
 
 
 def _drop_all_spec() -> Dict[str, Any]:
